@@ -2,7 +2,7 @@
    Only statements, `exact`, and Print Assumptions.
    Model: Model/Url.v (net/url escaping, parseRequestURL), Model/H1Req.v (request writers). *)
 From ReqV Require Import Lib.Bytes Model.Url Model.HeaderCollect Model.BodyFraming Model.H1Req Model.H2Body.
-From ReqV Require Import Proofs.UrlProofs Proofs.BodyFramingProofs Proofs.H1ReqProofs Proofs.H1EndToEnd Proofs.CrossProto Proofs.H2BodyProofs.
+From ReqV Require Import Proofs.UrlProofs Proofs.BodyFramingProofs Proofs.H1ReqProofs Proofs.H1EndToEnd Proofs.CrossProto Proofs.H2BodyProofs Proofs.StateProofs.
 From ReqV Require Gen.C01Tables.
 From Coq Require Import Permutation.
 
@@ -324,6 +324,59 @@ Theorem C01_h3w_order_irrelevant : forall qs qs', Permutation qs qs' ->
   Permutation (combine qs (h3w_run [] qs)) (combine qs' (h3w_run [] qs')).
 Proof. exact h3w_order_irrelevant. Qed.
 Print Assumptions C01_h3w_order_irrelevant.
+
+(* --- round 4: state carried across reads, attempts and requests --- *)
+(* a body source that fails: HTTP/2 never sets END_STREAM and writes only bytes read without error *)
+Theorem C01_h2_failed_source_never_ends_stream : forall reads alw,
+  snd (h2_upload reads alw) = false ->
+  all_open (fst (h2_upload reads alw)) /\ concat (map fst (fst (h2_upload reads alw))) = ok_prefix reads.
+Proof. exact h2_failed_source_never_ends_stream. Qed.
+Print Assumptions C01_h2_failed_source_never_ends_stream.
+
+(* HTTP/1.1: a chunked body that breaks off anywhere before its end is not read as a request *)
+Theorem C01_h1_broken_off_chunked_body_is_no_request : forall m t ls cs z zext tb j,
+  ok_head m t ls ->
+  field_values "Transfer-Encoding" (map trim_line ls) = [bs "chunked"] ->
+  field_values "Content-Length" (map trim_line ls) = [] ->
+  wf_chunked cs z zext tb -> j < length (render_chunked cs z zext tb) ->
+  observe_h1 (render_head m t ls ++ firstn j (render_chunked cs z zext tb)) = None.
+Proof. exact h1_broken_off_chunked_body_is_no_request. Qed.
+Print Assumptions C01_h1_broken_off_chunked_body_is_no_request.
+
+(* one Request executed several times: merging the client defaults again changes nothing, and
+   every attempt hands the transports the same header (each cookie once) *)
+Theorem C01_merge_headers_idempotent : forall rh ch,
+  NoDup (map fst rh) -> NoDup (map fst ch) -> client_values_nonempty ch ->
+  merge_headers (merge_headers rh ch) ch = merge_headers rh ch.
+Proof. exact merge_headers_idempotent. Qed.
+Print Assumptions C01_merge_headers_idempotent.
+
+Theorem C01_every_attempt_same_header : forall ch cck k s,
+  NoDup (map fst (rs_hdr s)) -> NoDup (map fst ch) -> client_values_nonempty ch ->
+  attempt_header (after_attempts ch cck k s) = attempt_header (after_attempts ch cck 0 s).
+Proof. exact every_attempt_same_header. Qed.
+Print Assumptions C01_every_attempt_same_header.
+
+(* were the attempt's http.Request to share the Request's header map, the cookies would double *)
+Theorem C01_shared_header_map_doubles_cookies :
+  exists ch cck s,
+    header_get (rs_hdr (run_attempt_shared ch cck 1 (run_attempt_shared ch cck 0 s))) (bs "Cookie")
+      = bs "sid=1; sid=1" /\
+    header_get (attempt_header (after_attempts ch cck 1 s)) (bs "Cookie") = bs "sid=1".
+Proof. exact shared_header_map_doubles_cookies. Qed.
+
+(* HPACK state of one HTTP/2 connection, for ANY codec whose encoder and decoder stay in step:
+   whichever requests are refused locally for their size (checked before anything is encoded),
+   the peer decodes exactly the field lists of the requests that were sent, in order *)
+Theorem C01_refused_requests_leave_no_trace :
+  forall (est dst block : Type) (enc : est -> list line -> block * est)
+         (dec : dst -> block -> list line * dst) (in_sync : est -> dst -> Prop),
+  (forall e d ls, in_sync e d ->
+     fst (dec d (fst (enc e ls))) = ls /\ in_sync (snd (enc e ls)) (snd (dec d (fst (enc e ls))))) ->
+  forall limit reqs e d, in_sync e d ->
+  peer_decode dst block dec d (conn_run est block enc limit e reqs) = filter (within limit) reqs.
+Proof. exact refused_requests_leave_no_trace. Qed.
+Print Assumptions C01_refused_requests_leave_no_trace.
 
 (* non-vacuity: a template with two holes, overlapping client/request keys and hostile values *)
 Example C01_nonvacuous :
